@@ -270,4 +270,138 @@ theorem sublist_of_increasing (key : Bunch → Int) : ∀ (L D : List Bunch), (L
           · exact hD'mem x hx
 
 
+theorem mem_relLog (ch : Nat) (log : List Event) (g : List Bunch) (q : Bunch) (hg : Event.recv g ∈ log) (hq : q ∈ g)
+    (hr : q.bReliable = true) (hc : q.chIndex = ch) : q.chSeq ∈ relLog ch log := by
+  induction log with
+  | nil => cases hg
+  | cons ev rest ih =>
+    rcases List.mem_cons.mp hg with rfl | hg
+    · simp only [relLog, List.mem_append]
+      right
+      unfold relOf
+      exact List.mem_map.mpr ⟨q, List.mem_filter.mpr ⟨hq, by simp [hr, hc]⟩, rfl⟩
+    · have := ih hg
+      cases ev with
+      | recv g' => simp only [relLog, List.mem_append]; left; exact this
+      | _ => simpa [relLog] using this
+
+theorem accepted_increasing (ch : Nat) (sent : List Bunch) (hdec : (relTags ch sent).Pairwise (· > ·)) :
+    (((accepted ch sent).map view).map (·.chSeq)).Pairwise (· < ·) := by
+  have : ((accepted ch sent).map view).map (·.chSeq) = (relTags ch sent).reverse := by
+    unfold accepted relTags
+    rw [List.map_map, List.map_reverse]; rfl
+  rw [this, List.pairwise_reverse]
+  exact hdec.imp (fun h => h)
+
+/-! ### consecutive runs -/
+
+/-- `s, s+1, s+2, …` -/
+def Asc : Int → List Int → Prop
+  | _, [] => True
+  | s, t :: rest => t = s ∧ Asc (s + 1) rest
+
+theorem asc_ge : ∀ (l : List Int) (s : Int), Asc s l → ∀ t ∈ l, s ≤ t := by
+  intro l
+  induction l with
+  | nil => intro s _ t ht; cases ht
+  | cons a rest ih =>
+    intro s h t ht
+    simp only [Asc] at h
+    rcases List.mem_cons.mp ht with rfl | ht
+    · omega
+    · have := ih _ h.2 t ht; omega
+
+theorem asc_snoc : ∀ (l : List Int) (s : Int), Asc s l → Asc s (l ++ [s + l.length]) := by
+  intro l
+  induction l with
+  | nil => intro s _; simp [Asc]
+  | cons a rest ih =>
+    intro s h
+    simp only [Asc] at h
+    simp only [List.cons_append, Asc, List.length_cons]
+    refine ⟨h.1, ?_⟩
+    have := ih _ h.2
+    have e : s + 1 + (rest.length : Int) = s + ((rest.length + 1 : Nat) : Int) := by push_cast; omega
+    rw [e] at this; exact this
+
+theorem asc_of_desc (lo : Int) : ∀ (l : List Int) (hi : Int), Desc lo hi l → Asc (lo + 1) l.reverse := by
+  intro l
+  induction l with
+  | nil => intro hi _; simp [Asc]
+  | cons t rest ih =>
+    intro hi h
+    simp only [Desc] at h
+    obtain ⟨rfl, hr⟩ := h
+    have h1 := ih _ hr
+    obtain ⟨_, _, hlen⟩ := desc_facts lo _ _ hr
+    have h2 := asc_snoc _ _ h1
+    rw [List.reverse_cons]
+    have e : lo + 1 + (rest.reverse.length : Int) = t := by rw [List.length_reverse]; omega
+    rw [e] at h2; exact h2
+
+/-- a consecutive run all of whose elements occur in a consecutive list, starting where the list starts, is a prefix of it -/
+theorem prefix_of_asc : ∀ (G L : List Bunch) (a : Int), Asc a (L.map (·.chSeq)) → Asc a (G.map (·.chSeq)) → (∀ x ∈ G, x ∈ L) →
+    ∃ post, L = G ++ post := by
+  intro G
+  induction G with
+  | nil => intro L a _ _ _; exact ⟨L, rfl⟩
+  | cons z G' ih =>
+    intro L a hL hG hm
+    simp only [List.map_cons, Asc] at hG
+    cases L with
+    | nil => exact absurd (hm z List.mem_cons_self) (by simp)
+    | cons w L' =>
+      simp only [List.map_cons, Asc] at hL
+      have hzw : z = w := by
+        rcases List.mem_cons.mp (hm z List.mem_cons_self) with h | h
+        · exact h
+        · have := asc_ge _ _ hL.2 z.chSeq (List.mem_map.mpr ⟨z, h, rfl⟩); omega
+      subst hzw
+      have hm' : ∀ x ∈ G', x ∈ L' := by
+        intro x hx
+        rcases List.mem_cons.mp (hm x (List.mem_cons_of_mem _ hx)) with h | h
+        · have := asc_ge _ _ hG.2 x.chSeq (List.mem_map.mpr ⟨x, hx, rfl⟩)
+          rw [h] at this; omega
+        · exact h
+      obtain ⟨post, hp⟩ := ih L' (a + 1) hL.2 (by rw [← hG.1, hL.1] at hG; exact hG.2) hm'
+      exact ⟨post, by rw [hp]; rfl⟩
+
+/-- a consecutive run all of whose elements occur in a consecutive list is a contiguous segment of it -/
+theorem infix_of_asc : ∀ (L G : List Bunch) (a s : Int), Asc a (L.map (·.chSeq)) → Asc s (G.map (·.chSeq)) → (∀ x ∈ G, x ∈ L) →
+    ∃ pre post, L = pre ++ G ++ post := by
+  intro L
+  induction L with
+  | nil =>
+    intro G a s _ _ hm
+    cases G with
+    | nil => exact ⟨[], [], rfl⟩
+    | cons y _ => exact absurd (hm y List.mem_cons_self) (by simp)
+  | cons x L' ih =>
+    intro G a s hL hG hm
+    cases G with
+    | nil => exact ⟨x :: L', [], by simp⟩
+    | cons y G' =>
+      simp only [List.map_cons, Asc] at hL
+      have hGy : y.chSeq = s := by simp only [List.map_cons, Asc] at hG; exact hG.1
+      by_cases hyx : y = x
+      · subst hyx
+        have hsa : s = a := by rw [← hGy, hL.1]
+        subst hsa
+        obtain ⟨post, hp⟩ := prefix_of_asc (y :: G') (y :: L') s (by simp only [List.map_cons, Asc]; exact hL) hG hm
+        exact ⟨[], post, by simpa using hp⟩
+      · have hyL : y ∈ L' := by
+          rcases List.mem_cons.mp (hm y List.mem_cons_self) with h | h
+          · exact absurd h hyx
+          · exact h
+        have hsge : a + 1 ≤ s := by
+          have := asc_ge _ _ hL.2 y.chSeq (List.mem_map.mpr ⟨y, hyL, rfl⟩); omega
+        have hm' : ∀ z ∈ y :: G', z ∈ L' := by
+          intro z hz
+          rcases List.mem_cons.mp (hm z hz) with h | h
+          · have := asc_ge _ _ hG z.chSeq (List.mem_map.mpr ⟨z, hz, rfl⟩)
+            rw [h] at this; omega
+          · exact h
+        obtain ⟨pre, post, hp⟩ := ih (y :: G') (a + 1) s hL.2 hG hm'
+        exact ⟨x :: pre, post, by rw [hp]; simp⟩
+
 end Utcp.Props.C01Link
